@@ -115,6 +115,106 @@ fn check_low(c: &LowCase, obs: &mut Obs) -> Result<(), String> {
     Ok(())
 }
 
+// ---------------------------------------------------------------------------
+// deep index bounds: counts from closed formulas / literature instead of brute force
+
+fn sigma(n: usize) -> usize {
+    (1..=n).filter(|d| n % d == 0).sum()
+}
+
+/// number of conjugacy classes of subgroups of index j (j = 1..=k) for the families whose
+/// subgroup lattice is known in closed form
+pub fn formula_counts(family: &str, param: usize, k: usize) -> Option<Vec<usize>> {
+    Some(match family {
+        // Z: one subgroup per index
+        "Z" => vec![1; k],
+        // Z^2: sublattices of index j: sigma(j)
+        "Z^2" => (1..=k).map(sigma).collect(),
+        // Z^3: sum over d | j of d * sigma(d)
+        "Z^3" => (1..=k).map(|j| (1..=j).filter(|d| j % d == 0).map(|d| d * sigma(d)).sum()).collect(),
+        // cyclic group of order n: one subgroup for every divisor
+        "cyclic" => (1..=k).map(|j| if param % j == 0 { 1 } else { 0 }).collect(),
+        // dihedral group of order 2n: cyclic subgroups of order d | n (index 2n/d, one class each; for
+        // n even the order-2 subgroup of the rotations is one of them) and dihedral subgroups of
+        // order 2d (index n/d): one class if n/d is odd, two if it is even
+        "dihedral" => {
+            let n = param;
+            (1..=k)
+                .map(|j| {
+                    let mut c = 0;
+                    if (2 * n) % j == 0 && n % (2 * n / j) == 0 {
+                        c += 1; // rotations of order 2n/j
+                    }
+                    if n % j == 0 {
+                        c += if j % 2 == 0 { 2 } else { 1 }; // dihedral of order 2n/j, index j = n/d
+                    }
+                    c
+                })
+                .collect()
+        }
+        // literature sequences (OEIS A005133 for PSL2(Z) = Z2 * Z3; classes of subgroups of free groups):
+        // values beyond the reach of the brute-force oracle, written down from the literature
+        "PSL2(Z)" => [1usize, 1, 2, 2, 1, 8, 6, 7, 14, 27, 26, 80, 133, 170, 348, 765, 1002].iter().cloned().take(k).collect::<Vec<_>>(),
+        "F2" => [1usize, 3, 7, 26, 97, 624, 4163, 34470].iter().cloned().take(k).collect::<Vec<_>>(),
+        "F3" => [1usize, 7, 41, 604, 13753].iter().cloned().take(k).collect::<Vec<_>>(),
+        _ => return None,
+    })
+}
+
+#[derive(Clone, Debug, Hash)]
+pub struct DeepCase {
+    pub family: String,
+    pub param: usize,
+    pub nr_gens: usize,
+    pub rels: Vec<Word>,
+    pub k: usize,
+}
+
+impl Case for DeepCase {
+    fn encode(&self) -> Value {
+        json!({"family": self.family, "parameter": self.param, "nr_gens": self.nr_gens, "relators": self.rels, "max_index": self.k})
+    }
+    fn decode(v: &Value) -> Option<Self> {
+        Some(DeepCase { family: v.get("family")?.as_str()?.to_string(), param: v.get("parameter")?.as_u64()? as usize, nr_gens: v.get("nr_gens")?.as_u64()? as usize, rels: dec_words(v.get("relators")?)?, k: v.get("max_index")?.as_u64()? as usize })
+    }
+    fn weight(&self) -> usize {
+        self.k * 10 + self.param
+    }
+    fn hash64(&self) -> u64 {
+        h64(self)
+    }
+}
+
+fn check_deep(c: &DeepCase, obs: &mut Obs) -> Result<(), String> {
+    let expect = formula_counts(&c.family, c.param, c.k).ok_or("harness: unknown family")?;
+    let rels: Vec<FreeWord> = c.rels.iter().map(|w| fw(w)).collect();
+    let mut got: BTreeMap<usize, BTreeSet<Vec<usize>>> = BTreeMap::new();
+    for (n, ct) in coset_tables(c.nr_gens, &rels, c.k).enumerate() {
+        let t = read_table(&ct, c.nr_gens).map_err(|e| format!("table #{}: {}", n + 1, e))?;
+        ensure!(t.len() >= 1 && t.len() <= c.k, "table #{} has {} rows, bound is {}", n + 1, t.len(), c.k);
+        ensure!(t.is_transitive(), "table #{} ({} rows) is not a transitive action", n + 1, t.len());
+        if let Some((k, r)) = t.relators_close(&c.rels) {
+            return Err(format!("table #{}: relator {:?} traced from row {} ends in row {}", n + 1, c.rels[k], r, t.trace(r, &c.rels[k])));
+        }
+        ensure!(got.entry(t.len()).or_default().insert(t.canonical_code()), "table #{} ({} rows) is equivalent to an earlier table (same subgroup class listed twice)", n + 1, t.len());
+    }
+    for j in 1..=c.k {
+        let g = got.get(&j).map_or(0, |s| s.len());
+        ensure!(g == expect[j - 1], "{} {} (relators {:?}) has {} conjugacy classes of subgroups of index {} (closed formula), the enumeration with bound {} lists {}", c.family, c.param, c.rels, expect[j - 1], j, c.k, g);
+    }
+    obs.nontrivial(c.k >= 10);
+    obs.class(&c.family);
+    Ok(())
+}
+
+pub const SUB_DEEP: Sub<DeepCase> = Sub {
+    name: "deep_index",
+    rule: "(family with a closed formula or a literature sequence for its subgroup classes: Z, Z^2 (sigma), Z^3 (sum d sigma(d)), cyclic, dihedral; PSL2(Z) to index 17, F2 to 8, F3 to 5; presentation in several generator orders; index bound k up to 80): every table complete, <= k rows, transitive, relators close, pairwise inequivalent, and the number of tables per index equals the formula; non-trivial = k >= 10",
+    check: check_deep,
+    panic_discards: &[],
+    journal: false,
+};
+
 pub const SUB_LOW: Sub<LowCase> = Sub {
     name: "low_index",
     rule: "(presentation, index bound k): every table complete, <= k rows, transitive, all relators fix all rows; canonical forms (minimum BFS relabelling over all base points) pairwise different and, per index, equal as a set to ALL transitive homomorphisms into S_j found by brute force (first generator up to cycle type, relator pruning); non-trivial = some listed class is non-normal",
@@ -181,6 +281,35 @@ pub fn run(ctx: &mut Ctx) {
     let nf = fam.len();
     ctx.run_par(&SUB_LOW, fam, Some(&format!("all {} presentations <a,b | a^p, b^q, (ab)^r> with 2 <= p, q, r <= {} (both generator orders), index bound {}", nf, lim, k2)));
 
+    // index bounds far beyond the brute-force oracle, for families whose classes are counted by a formula
+    ctx.layer("deep");
+    let mut deep = vec![];
+    let pw = |w: &[i64], e: usize| -> Word { let mut v = vec![]; for _ in 0..e { v.extend_from_slice(w); } v };
+    for k in [12usize, 20, t.pick(30, 48)] {
+        deep.push(DeepCase { family: "Z".into(), param: 0, nr_gens: 1, rels: vec![], k });
+        deep.push(DeepCase { family: "Z^2".into(), param: 0, nr_gens: 2, rels: vec![vec![1, 2, -1, -2]], k });
+        deep.push(DeepCase { family: "Z^2".into(), param: 0, nr_gens: 2, rels: vec![vec![2, -1, -2, 1]], k });
+    }
+    for k in [8usize, t.pick(12, 16)] {
+        deep.push(DeepCase { family: "Z^3".into(), param: 0, nr_gens: 3, rels: vec![vec![1, 2, -1, -2], vec![1, 3, -1, -3], vec![2, 3, -2, -3]], k });
+        deep.push(DeepCase { family: "Z^3".into(), param: 0, nr_gens: 3, rels: vec![vec![3, 2, -3, -2], vec![3, 1, -3, -1], vec![2, 1, -2, -1]], k });
+    }
+    for n in 2..=t.pick(40usize, 80usize) {
+        deep.push(DeepCase { family: "cyclic".into(), param: n, nr_gens: 1, rels: vec![pw(&[1], n)], k: n });
+        deep.push(DeepCase { family: "cyclic".into(), param: n, nr_gens: 2, rels: vec![pw(&[1], n), vec![2, -1, -1]], k: n });
+    }
+    for n in 3..=t.pick(20usize, 36usize) {
+        deep.push(DeepCase { family: "dihedral".into(), param: n, nr_gens: 2, rels: vec![pw(&[1], n), vec![2, 2], vec![1, 2, 1, 2]], k: 2 * n });
+        deep.push(DeepCase { family: "dihedral".into(), param: n, nr_gens: 2, rels: vec![vec![1, 1], vec![2, 2], pw(&[1, 2], n)], k: 2 * n });
+        deep.push(DeepCase { family: "dihedral".into(), param: n, nr_gens: 2, rels: vec![vec![1, 1], pw(&[2], n), vec![2, 1, 2, 1]], k: 2 * n });
+    }
+    deep.push(DeepCase { family: "PSL2(Z)".into(), param: 0, nr_gens: 2, rels: vec![vec![1, 1], vec![2, 2, 2]], k: t.pick(15, 17) });
+    deep.push(DeepCase { family: "PSL2(Z)".into(), param: 0, nr_gens: 2, rels: vec![vec![1, 1, 1], vec![2, 2]], k: t.pick(15, 17) });
+    deep.push(DeepCase { family: "F2".into(), param: 0, nr_gens: 2, rels: vec![], k: t.pick(7, 8) });
+    deep.push(DeepCase { family: "F3".into(), param: 0, nr_gens: 3, rels: vec![], k: 5 });
+    let nd = deep.len();
+    ctx.run_par(&SUB_DEEP, deep, Some(&format!("{} (presentation, index bound) pairs of Z, Z^2, Z^3, cyclic, dihedral groups, PSL2(Z), F2, F3 in several generator orders, bounds up to {}", nd, t.pick(40, 80))));
+
     ctx.layer("random");
     let (k2r, k3r) = (max_k(2, b, 7), max_k(3, b, 5));
     ctx.run_prop(
@@ -205,6 +334,7 @@ pub fn run(ctx: &mut Ctx) {
 pub fn replay(ctx: &mut Ctx, sub: &str, case: &Value) -> Option<Result<(), String>> {
     Some(match sub {
         "low_index" => ctx.run_one(&SUB_LOW, &LowCase::decode(case)?),
+        "deep_index" => ctx.run_one(&SUB_DEEP, &DeepCase::decode(case)?),
         _ => return None,
     })
 }
